@@ -145,9 +145,12 @@ def big_history(rng, maxl=4, judge='all'):
     cap = 32 * 14
     for _ in range(rng.randint(4, 16)):
         i, j = rng.sample(range(nreg), 2)
-        a, b = vals[i], vals[j]
         k = rng.choice(['out', 'out', 'div', 'div', 'rem', 'rem', 'add', 'sub', 'mul', 'eq', 'cmp', 'neg', 'ispos', 'tostr', 'gcd',
                         'minus', 'minus', 'minus', 'addas', 'subas', 'mulas', 'divas', 'remas', 'setcopy'])
+        if k in ('div', 'rem', 'add', 'sub', 'mul', 'eq', 'cmp', 'gcd') and rng.random() < 0.2:
+            j = i                      # both operands are the SAME object (x op x)
+            ops.append('alias')
+        a, b = vals[i], vals[j]
         if k in ('div', 'rem', 'divas', 'remas') and b == 0:
             k = 'out'
         if k in ('mul', 'mulas') and a.bit_length() + b.bit_length() > cap:
@@ -224,9 +227,12 @@ def num_history(rng, maxl=2, judge='all', bitcap=320):
     big = lambda v: v is not None and (v.numerator.bit_length() > bitcap or v.denominator.bit_length() > bitcap)
     for _ in range(rng.randint(4, 16)):
         i, j = rng.sample(range(nreg), 2)
-        a, b = vals[i], vals[j]
         k = rng.choice(['out', 'out', 'out', 'eq', 'eq', 'cmp', 'cmp', 'add', 'mul', 'neg', 'floor', 'ispos', 'isnan', 'tostr',
                         'minus', 'minus', 'flip', 'addas', 'mulas', 'setcopy'])
+        if k in ('eq', 'cmp', 'add', 'mul') and rng.random() < 0.2:
+            j = i                      # both operands are the SAME object (x op x)
+            ops.append('alias')
+        a, b = vals[i], vals[j]
         if k in ('add', 'addas') and big(F.add(a, b)) or k in ('mul', 'mulas') and big(F.mul(a, b)):
             k = 'out'
         if k == 'eq' and (a is None or b is None):
